@@ -55,9 +55,9 @@ P = {
  "C17": dict(engine="E1+E2", design="3/C17", technique="BFS over short value/merge/query sequences and deviation-bounded long streams against an exact multiset",
    text="t-digest (k=10,11,20; double/float): E1 BFS by history replay over updates (incl. a huge value and NaN), rank/quantile queries, serialize, compress, merge(self), merge with a menu of 7 operands in both directions (depth 6/8 values, 4/5 merges) and from four hand-built reference-format images with heavy extreme centroids; E2 all paths with <=1 (every position) / <=2 (block granularity) deviations from six 650..900-step streams crossing several compressions with alternating merge direction. Oracle in every state against the exact multiset: total weight, emptiness, centroid weights, centroid and buffer bounds, exact extremes, sorted means, rank in [0,1] non-decreasing with 0 below min and 1 above max, quantile non-decreasing within [min,max] with quantile(0)==min and quantile(1)==max, CDF/PMF consistent, invalid queries rejected; rank error against q(1-q)/k + 1/n scaled (tighter in the tails) for n >= 200.",
    note="k <= 20, n <= 900; accuracy multiples (45 middle, 6 tails) set above the worst ratios measured on the unchanged tree (20.9, 2.0) because the documentation gives no figure; with an infinity accepted only weight, extremes and memory safety are demanded; one known finding (rank decreasing after an update below a heavy first centroid of a reference-format image)."),
- "C18": dict(engine="E3", design="3/C18", technique="probabilistic choice-tree exploration; exact inclusion probabilities",
-   text="EBPPS for k 1..3 over all weight sequences to a bound and merges in both directions: n, cumulative weight, c, sample sizes on every branch; inclusion probability of every item equals c*w/W exactly in expectation.",
-   note="Integer weights {1,2,4}."),
+ "C18": dict(engine="E3", design="3/C18", technique="probabilistic choice-tree exploration with interval discovery over raw draws and Markov merging; exact inclusion-probability identities",
+   text="EBPPS for k 1..3, weights {1,2,4}: DFS over every weight sequence to a length bound with the exact distribution over canonical states (every next_double / random_idx draw of ebpps_sample owned by the harness, incl. the draws of get_result and of iteration); every ordered pair of an operand menu merged by const& and by && (swap and no-swap, unequal k, empty operands, restored operands; joint distribution = product of operand distributions), chains (A<-B)<-C, further updates after merges, round trips by bytes and stream as distributions. On every branch: n, cumulative weight and k exact, c == min(k, W/wmax), merge adds n and W and takes the smaller k, every result has floor(c) or ceil(c) items all from the input and none twice, equal weights and n <= k keep everything; exactly over all branches (1e-9): P(i in result) == c*w_i/W for every item, E|result| == c, P(non-input) == 0.",
+   note="Lengths <= 4 (quick) / <= k+4, 6 at k=3 (thorough); merge pairs n_A+n_B <= 3 / 5; grid 4096 for update and merge draws (thresholds are rationals with denominators <= 1344), 256 for the query draw; probes start from a clone of the replayed pre-state, every state entering a distribution is re-created by a from-scratch replay with identical canon."),
  "C19": dict(engine="E5", design="3/C19", technique="BFS over lifecycle operations on 2-3 slots per family with a tracking allocator and instrumented items under ASan",
    text="For 26 sketch / operator families (incl. tuple sketches and unions with instrumented-item summaries and array-of-doubles sketches whose tables grow, and an HLL_4 sketch driven by injected coupons through creation, survival and emptying of its exception map) instantiated with the arena-tracking allocator (a separate arena per slot) and the instrumented item type: BFS to depth 6 (quick) / 8 (thorough) over construct, light update, mode-changing update, merge by reference and by move, copy- and move-construction, copy- and move-assignment, self-assignment, reset, serialize and destroy on 2 (and 3) slots; after every operation copies equal their source, other slots are unchanged, moved-from objects accept destruction and assignment, the ledgers show no arena / size mismatch and no item misuse, no ASan report; every new state is then destroyed completely and nothing may remain allocated, items constructed == destroyed.",
    note="Content alphabet of at most 2 light and 1 mode-changing operation per slot; transient scratch obtained through std::allocator is not gated."),
